@@ -12,5 +12,6 @@ CHECKS = {
     "C03": {"pkg": "verifx/c03", "run": "TestC03", "harness": EXPORTS, "level": "exploration"},
     "C12": {"pkg": "verifx/c12", "run": "TestC12", "harness": EXPORTS, "level": "exploration"},
     "C14": {"pkg": "verifx/c14", "run": "TestC14", "harness": [], "level": "exploration"},
+    "C15": {"pkg": "verifx/c15", "run": "TestC15", "harness": ["consensus"], "level": "exploration"},
     "C13": {"pkg": "verifx/c13", "run": "TestC13", "harness": EXPORTS2, "level": "exploration"},
 }
